@@ -357,6 +357,7 @@ type draft struct {
 	kind   string
 	note   string
 	gas    *types.CoinID // forced gas coin
+	coin   *types.CoinID // the coin the transaction spends (boundary variants often pay the fee in it too)
 	price1 bool          // force gas price 1
 	payer  *types.Address
 }
@@ -420,6 +421,9 @@ func (g *TxGen) Envelope(d *draft) ([]byte, TxMeta) {
 		} else {
 			spec.GasCoin, _ = g.heldCoin(addr)
 		}
+	}
+	if d.coin != nil && d.kind == "boundary" && g.R.Intn(2) == 0 {
+		spec.GasCoin = *d.coin // amount at the balance boundary AND the fee in the same coin
 	}
 	if d.gas != nil {
 		spec.GasCoin = *d.gas
@@ -501,6 +505,7 @@ func (g *TxGen) make(t tx.TxType) *draft {
 			R.Read(to[:])
 		}
 		d.data = tx.SendData{Coin: c, To: to, Value: g.amount(b, kind)}
+		d.coin = &c
 	case tx.TypeMultisend:
 		n := 1 + R.Intn(5)
 		if kind == "invalid" && R.Intn(3) == 0 {
@@ -654,6 +659,8 @@ func (g *TxGen) make(t tx.TxType) *draft {
 			d.data = tx.MintTokenData{Coin: types.CoinID(ci.ID), Value: v}
 		} else {
 			d.data = tx.BurnTokenDataV260{Coin: types.CoinID(ci.ID), Value: v}
+			bc := types.CoinID(ci.ID)
+			d.coin = &bc
 		}
 	case tx.TypeDeclareCandidacy:
 		g.valN++
@@ -703,6 +710,7 @@ func (g *TxGen) make(t tx.TxType) *draft {
 			coin = g.anyCoin()
 		}
 		d.data = tx.DelegateDataV260{PubKey: pub, Coin: coin, Value: g.amount(g.bal(a, coin), kind)}
+		d.coin = &coin
 	case tx.TypeUnbond, tx.TypeMoveStake:
 		// pick an existing stake or waitlist entry
 		st := g.pickStake()
@@ -854,6 +862,7 @@ func (g *TxGen) make(t tx.TxType) *draft {
 			return nil
 		}
 		d.data = tx.CreateSwapPoolData{Coin0: c0, Coin1: c1, Volume0: g.amount(g.bal(a, c0), kind), Volume1: g.amount(g.bal(a, c1), kind)}
+		d.coin = &c1
 	case tx.TypeAddLiquidity:
 		ps := g.pools()
 		if len(ps) == 0 {
@@ -864,6 +873,7 @@ func (g *TxGen) make(t tx.TxType) *draft {
 			p.c0, p.c1 = p.c1, p.c0
 		}
 		d.data = tx.AddLiquidityDataV260{Coin0: p.c0, Coin1: p.c1, Volume0: g.amount(g.bal(a, p.c0), kind), MaximumVolume1: g.limit(true)}
+		d.coin = &p.c0
 	case tx.TypeRemoveLiquidity:
 		// a pool whose LP token somebody the harness controls holds
 		var cand []struct {
@@ -987,6 +997,7 @@ func (g *TxGen) make(t tx.TxType) *draft {
 			due = uint32(g.S.H + 1 + int64(R.Intn(2)))
 		}
 		d.data = tx.LockData{DueBlock: due, Coin: c, Value: g.amount(b, kind)}
+		d.coin = &c
 	case tx.TypeRedeemCheck:
 		return g.makeRedeem(kind)
 	default:
